@@ -116,6 +116,26 @@ fn table() -> Vec<(&'static str, Check)> {
         ("C03-array-literal", || c03("array[int, 2] a = {1, 2};")),
         ("C03-block-expr", || c03("int x = {1};")),
         ("C03-box-expr", || c03("box { };")),
+        ("C06-power-op", || {
+            let res = oq3_semantics::syntax_to_semantics::parse_source_string("float a; float b; a ** b;", None);
+            let dbg = format!("{:?}", res.program());
+            (dbg.contains("ConcatenationOp") && !dbg.contains("PowerOp"), format!("ASG of `a ** b;`: contains ConcatenationOp={} PowerOp={}", dbg.contains("ConcatenationOp"), dbg.contains("PowerOp")))
+        }),
+        ("C08-imaginary-int", || {
+            let res = oq3_semantics::syntax_to_semantics::parse_source_string("3im;", None);
+            let dbg = format!("{:?}", res.program());
+            (dbg.contains("ImaginaryInt") && dbg.contains("ty: Int(Some(64), True)"), format!("ASG of `3im;`: {}", dbg))
+        }),
+        ("C09-width-truncation", || {
+            let res = oq3_semantics::syntax_to_semantics::parse_source_string("int[4294967297] x;", None);
+            let dbg = format!("{:?}", res.symbol_table());
+            (dbg.contains("Int(Some(1), False)") && res.semantic_errors().len() == 0, format!("`int[4294967297] x;`: {} semantic diagnostics; symbol typed Int(Some(1))={}", res.semantic_errors().len(), dbg.contains("Int(Some(1), False)")))
+        }),
+        ("C09-nonconst-designator-silent", || {
+            let res = oq3_semantics::syntax_to_semantics::parse_source_string("int n = 4; int[n] x;", None);
+            let dbg = format!("{:?}", res.symbol_table());
+            (res.semantic_errors().len() == 0 && dbg.contains("name: \"x\", typ: Int(None, False)"), format!("`int n = 4; int[n] x;`: {} semantic diagnostics; x typed Int(None)={}", res.semantic_errors().len(), dbg.contains("name: \"x\", typ: Int(None, False)")))
+        }),
         ("C20-const-eq", || {
             let r = promote_types(&Type::Int(Some(8), c(true)), &Type::Int(Some(8), c(false)));
             (r.is_const(), format!("promote_types(const int[8], int[8]) = {:?}", r))
